@@ -114,80 +114,149 @@ func checkC08(p *Prog, r *Report) {
 			}
 		}
 		exported := map[string]string{} // family -> genesis map field
-		eo := NewOrigin(p, exp)
 		// each MapUpdate: map field, key built from which alloc, value from which GetAll call
-		for _, b := range exp.Blocks {
-			for _, in := range b.Instrs {
-				mu, ok := in.(*ssa.MapUpdate)
-				if !ok {
-					continue
-				}
-				fld, _ := rawFieldLoad(mu.Map)
-				kt := eo.Of(mu.Key)
-				site := p.Pos(mu.Pos())
-				okKey := kt.IsCall("types/compkey.EncodeToString") && len(kt.Args) == 2
-				var keySrc, valSrc *Term
-				keyType := ""
-				if okKey {
-					ka := kt.Args[0]
-					if ka.Op == "addr" {
-						ka = ka.Args[0]
+		expUnits := genesisUnits(p, exp)
+		for _, eu := range expUnits {
+			eo := eu.o
+			for _, b := range eu.fn.Blocks {
+				for _, in := range b.Instrs {
+					mu, ok := in.(*ssa.MapUpdate)
+					if !ok {
+						continue
 					}
-					keySrc = ka
-					if ka.Val != nil {
-						keyType = shortPkg(ka.Val.Type().String())
+					fld, _ := rawFieldLoad(mu.Map)
+					if eu.resultField != "" && returnedFreshMap(eu.fn, mu.Map) {
+						// a per-family exporter: the map it builds and returns is what ExportGenesis stores into that field
+						fld = eu.resultField
 					}
-				}
-				vt := eo.Of(mu.Value)
-				valSrc = vt
-				// both derive from the same GetAll* call: key = res#0(call)[i], value = &res#1(call)[i]
-				var call *Term
-				if keySrc != nil {
-					keySrc.Walk(func(x *Term) {
-						if x.Op == "call" && m.accessorByName(x.Name) != nil {
-							call = x
+					kt := eo.Of(mu.Key)
+					site := p.Pos(mu.Pos())
+					okKey := kt.IsCall("types/compkey.EncodeToString") && len(kt.Args) == 2
+					var keySrc, valSrc *Term
+					keyType := ""
+					if okKey {
+						ka := kt.Args[0]
+						if ka.Op == "addr" {
+							ka = ka.Args[0]
+						}
+						keySrc = ka
+						if ka.Val != nil {
+							keyType = shortPkg(ka.Val.Type().String())
+						}
+					}
+					vt := eo.Of(mu.Value)
+					valSrc = vt
+					// both derive from the same GetAll* call: key = res#0(call)[i], value = &res#1(call)[i]
+					var call *Term
+					if keySrc != nil {
+						keySrc.Walk(func(x *Term) {
+							if x.Op == "call" && m.accessorByName(x.Name) != nil {
+								call = x
+							}
+						})
+					}
+					fam := ""
+					if call != nil {
+						fam = m.accessorByName(call.Name).Family
+					}
+					sameCall := call != nil && valSrc.Contains(func(x *Term) bool { return x.Eq(call) })
+					// ... and at the same position of the two parallel slices
+					var ki, vi *Term
+					if keySrc != nil {
+						keySrc.Walk(func(x *Term) {
+							if (x.Op == "index" || x.Op == "indexaddr") && len(x.Args) == 2 && x.Args[0].Contains(func(y *Term) bool { return y.Eq(call) }) {
+								ki = x.Args[1]
+							}
+						})
+					}
+					valSrc.Walk(func(x *Term) {
+						if (x.Op == "index" || x.Op == "indexaddr") && len(x.Args) == 2 && call != nil && x.Args[0].Contains(func(y *Term) bool { return y.Eq(call) }) {
+							vi = x.Args[1]
 						}
 					})
-				}
-				fam := ""
-				if call != nil {
-					fam = m.accessorByName(call.Name).Family
-				}
-				sameCall := call != nil && valSrc.Contains(func(x *Term) bool { return x.Eq(call) })
-				// ... and at the same position of the two parallel slices
-				var ki, vi *Term
-				if keySrc != nil {
-					keySrc.Walk(func(x *Term) {
-						if (x.Op == "index" || x.Op == "indexaddr") && len(x.Args) == 2 && x.Args[0].Contains(func(y *Term) bool { return y.Eq(call) }) {
-							ki = x.Args[1]
-						}
-					})
-				}
-				valSrc.Walk(func(x *Term) {
-					if (x.Op == "index" || x.Op == "indexaddr") && len(x.Args) == 2 && call != nil && x.Args[0].Contains(func(y *Term) bool { return y.Eq(call) }) {
-						vi = x.Args[1]
+					sameCall = sameCall && ki != nil && vi != nil && ki.Eq(vi)
+					r.Check(okKey && call != nil && sameCall, kp("ORIGIN", "x/aol.ExportGenesis#"+fld+"-key+value-from-same-entry"),
+						"export: the map key is EncodeToString of the key decoded from the very store entry whose value is exported", site,
+						fmt.Sprintf("%s[%s] ← %s", fld, keyType, fam), fmt.Sprintf("key=%v value=%v", kt, vt))
+					sep, _ := p.ConstVal(Rel(aolTypesPkg), "GenesisKeySeparator")
+					r.Check(okKey && kt.Args[1].Op == "const" && kt.Args[1].Name == sep, kp("CONST", "x/aol.ExportGenesis#"+fld+"-separator"), "export uses the genesis separator constant", site, sep, fmt.Sprint(kt))
+					if fam != "" {
+						exported[fam] = fld
+						// the family's plural field name
+						r.Check(strings.HasPrefix(fld, fam), kp("AGREE", "x/aol.ExportGenesis#"+fam+"→"+fld), "each family is exported into its own genesis map", site, fam+" → "+fld, fmt.Sprintf("%s entries are exported into the %s map", fam, fld))
 					}
-				})
-				sameCall = sameCall && ki != nil && vi != nil && ki.Eq(vi)
-				r.Check(okKey && call != nil && sameCall, kp("ORIGIN", "x/aol.ExportGenesis#"+fld+"-key+value-from-same-entry"),
-					"export: the map key is EncodeToString of the key decoded from the very store entry whose value is exported", site,
-					fmt.Sprintf("%s[%s] ← %s", fld, keyType, fam), fmt.Sprintf("key=%v value=%v", kt, vt))
-				sep, _ := p.ConstVal(Rel(aolTypesPkg), "GenesisKeySeparator")
-				r.Check(okKey && kt.Args[1].Op == "const" && kt.Args[1].Name == sep, kp("CONST", "x/aol.ExportGenesis#"+fld+"-separator"), "export uses the genesis separator constant", site, sep, fmt.Sprint(kt))
-				if fam != "" {
-					exported[fam] = fld
-					// the family's plural field name
-					r.Check(strings.HasPrefix(fld, fam), kp("AGREE", "x/aol.ExportGenesis#"+fam+"→"+fld), "each family is exported into its own genesis map", site, fam+" → "+fld, fmt.Sprintf("%s entries are exported into the %s map", fam, fld))
 				}
 			}
 		}
+		// nothing takes an entry out of the exported maps again: a genesis map field is assigned at most once, from a per-family
+		// exporter, and no export unit deletes from a map
+		{
+			stores := map[string]int{}
+			var bad []string
+			for _, eu := range expUnits {
+				for _, b := range eu.fn.Blocks {
+					for _, in := range b.Instrs {
+						switch x := in.(type) {
+						case *ssa.Store:
+							fa, ok := x.Addr.(*ssa.FieldAddr)
+							if !ok {
+								continue
+							}
+							if _, isMap := x.Val.Type().Underlying().(*types.Map); !isMap {
+								continue
+							}
+							f := fieldName(fa.X.Type(), fa.Field)
+							stores[f]++
+							fromUnit := false
+							for _, u2 := range expUnits {
+								if u2.call != nil && ssa.Value(u2.call) == x.Val && u2.resultField == f {
+									fromUnit = true
+								}
+							}
+							if !fromUnit || stores[f] > 1 {
+								bad = append(bad, fmt.Sprintf("%s is (re)assigned at %s", f, p.Pos(x.Pos())))
+							}
+						case *ssa.Call:
+							if bi, ok := x.Call.Value.(*ssa.Builtin); ok && (bi.Name() == "delete" || bi.Name() == "clear") {
+								bad = append(bad, fmt.Sprintf("%s at %s", bi.Name(), p.Pos(x.Pos())))
+							}
+						}
+					}
+				}
+			}
+			r.Check(len(bad) == 0, kp("ORIGIN", "x/aol.ExportGenesis#maps-only-grow"), "export: an exported map is filled once and nothing is taken out of it again", p.FnPos(exp),
+				fmt.Sprintf("%d export units, map fields assigned: %d", len(expUnits), len(stores)), strings.Join(bad, "; ")+": entries put into the genesis map can be dropped again before it is returned")
+		}
 		// every exported entry is put into the map on every iteration (no conditional skip)
-		checkUnconditionalLoopEffect(p, r, kp("LOOP", "x/aol.ExportGenesis#every-entry-exported"), exp,
-			func(in ssa.Instruction) bool { _, ok := in.(*ssa.MapUpdate); return ok }, "export puts every stored entry into the genesis map, with no conditional skip")
+		nExpLoops := 0
+		for _, eu := range expUnits {
+			has := false
+			for _, b := range eu.fn.Blocks {
+				for _, in := range b.Instrs {
+					if _, ok := in.(*ssa.MapUpdate); ok {
+						has = true
+					}
+				}
+			}
+			if has {
+				nExpLoops++
+				checkUnconditionalLoopEffect(p, r, kp("LOOP", "x/aol.ExportGenesis#every-entry-exported"), eu.fn,
+					func(in ssa.Instruction) bool { _, ok := in.(*ssa.MapUpdate); return ok }, "export puts every stored entry into the genesis map, with no conditional skip")
+			}
+		}
+		if nExpLoops == 0 {
+			checkUnconditionalLoopEffect(p, r, kp("LOOP", "x/aol.ExportGenesis#every-entry-exported"), exp,
+				func(in ssa.Instruction) bool { _, ok := in.(*ssa.MapUpdate); return ok }, "export puts every stored entry into the genesis map, with no conditional skip")
+		}
 		// the importer decodes with the same separator constant
 		sepC, _ := p.ConstVal(Rel(aolTypesPkg), "GenesisKeySeparator")
 		nDec := 0
-		for _, cs := range callSites(imp) {
+		impUnits := genesisUnits(p, imp)
+		var impCalls []CallSite
+		for _, iu := range impUnits {
+			impCalls = append(impCalls, callSites(iu.fn)...)
+		}
+		for _, cs := range impCalls {
 			if cs.Callee != nil && pkgPathOf(cs.Callee) == Rel(compkeyPkg) && strings.Contains(cs.Callee.Name(), "DecodeFromString") {
 				nDec++
 				c, isC := cs.Instr.Common().Args[1].(*ssa.Const)
@@ -197,9 +266,12 @@ func checkC08(p *Prog, r *Report) {
 		}
 		r.Floor("aol-import-key-decodes", nDec, 4)
 		// importer pairing
-		io := NewOrigin(p, imp)
 		imported := map[string]string{}
-		for _, ac := range m.accessorCalls(imp, io) {
+		var impAcc []accCall
+		for _, iu := range impUnits {
+			impAcc = append(impAcc, m.accessorCalls(iu.fn, iu.o)...)
+		}
+		for _, ac := range impAcc {
 			if ac.acc.Op != "Set" {
 				continue
 			}
@@ -210,6 +282,9 @@ func checkC08(p *Prog, r *Report) {
 						fld = x.Args[0].Name
 					}
 				})
+				if M, _, isWalk := sortedKeyWalk(ac.val); isWalk && M.Op == "field" {
+					fld = M.Name
+				}
 			}
 			imported[ac.acc.Family] = fld
 			r.Check(fld != "" && exported[ac.acc.Family] == fld, kp("AGREE", "x/aol.InitGenesis#"+ac.acc.Family+"←"+fld),
